@@ -262,3 +262,219 @@ def r5(ctx):
 def r6(ctx):
     from .c14 import deferred_isolation
     deferred_isolation(ctx, "C10")
+
+
+# ------------------------------------------------------------------ R1
+DECODE_PATH = [
+    ("apdu", "APCISequence", "decode"),
+    ("primitivedata", "TagList", "decode"), ("primitivedata", "Tag", "decode"), ("primitivedata", "Tag", "context_to_app"), ("primitivedata", "Tag", "app_to_object"),
+    ("constructeddata", "Sequence", "decode"), ("constructeddata", "Choice", "decode"), ("constructeddata", "Any", "decode"),
+    ("constructeddata", "AnyAtomic", "decode"),
+]
+
+
+def _decode_path_functions(prog):
+    out = []
+    for mn, cn, fn in DECODE_PATH:
+        c = prog.cls(mn, cn)
+        if fn not in c.methods:
+            raise AnchorMissing("%s.%s.%s" % (mn, cn, fn))
+        out.append((c, c.methods[fn]))
+    # list/array decoders live in factory functions
+    cd = prog.module("constructeddata")
+    for fname in ("SequenceOf", "ListOf", "ArrayOf"):
+        f = cd.functions.get(fname)
+        if f is None:
+            raise AnchorMissing("constructeddata.%s" % fname)
+        inner = [st for st in f.body if isinstance(st, ast.ClassDef)]
+        for k in inner:
+            for st in k.body:
+                if isinstance(st, ast.FunctionDef) and st.name == "decode":
+                    out.append((type("C", (), {"name": "%s.%s" % (fname, k.name), "module": cd})(), st))
+    # every primitive's decode
+    pm = prog.module("primitivedata")
+    atomic = prog.cls("primitivedata", "Atomic")
+    for c in pm.classes.values():
+        if atomic in prog.mro(c) and "decode" in c.methods:
+            out.append((c, c.methods["decode"]))
+    return out
+
+
+def _none_guarded(use, var):
+    """is the attribute access `var.attr` protected against var being None?"""
+    at = atom_texts(facts_at(use))
+    for t, p in at:
+        if (t == "%s is None" % var and not p) or (t == "%s is not None" % var and p) or (t == var and p) or (t == "not %s" % var and not p):
+            return True
+    # short circuit inside the same boolean expression
+    p = getattr(use, "_parent", None)
+    child = use
+    while p is not None and not isinstance(p, ast.stmt):
+        if isinstance(p, ast.BoolOp):
+            idx = None
+            for i, v in enumerate(p.values):
+                if v is child or any(n is child for n in ast.walk(v)):
+                    idx = i
+            for v in p.values[: idx or 0]:
+                t = norm(v)
+                if isinstance(p.op, ast.Or) and t in ("not %s" % var, "%s is None" % var):
+                    return True
+                if isinstance(p.op, ast.And) and t in (var, "%s is not None" % var):
+                    return True
+        child = p
+        p = getattr(p, "_parent", None)
+    return False
+
+
+def escape_sites(prog):
+    """(owner name, function, kind, key, node, locally_safe) for every place on the request decode path
+    that can raise something other than a Reject/Abort exception"""
+    sites = []
+    import struct as _struct
+    for c, f in _decode_path_functions(prog):
+        m = c.module
+        q = "%s.%s" % (c.name, f.name)
+        ev = Evaluator(prog, m)
+        for n in walk_shallow(f):
+            # explicit raises
+            if isinstance(n, ast.Raise) and n.exc is not None:
+                cls_node = n.exc.func if isinstance(n.exc, ast.Call) else n.exc
+                fam = exc_family(prog, m, cls_node)
+                if fam in ("reject", "abort"):
+                    continue
+                at = atom_texts(facts_at(n))
+                # argument-type preconditions on a parameter that is never wire data
+                if fam == "TypeError" and any(t.startswith("isinstance(") and not p for t, p in at):
+                    continue
+                msg = ""
+                if isinstance(n.exc, ast.Call) and n.exc.args and isinstance(n.exc.args[0], ast.Constant):
+                    msg = str(n.exc.args[0].value)[:28]
+                elif isinstance(n.exc, ast.Call) and n.exc.args and isinstance(n.exc.args[0], ast.BinOp) and isinstance(n.exc.args[0].left, ast.Constant):
+                    msg = str(n.exc.args[0].left.value)[:28]
+                sites.append((q, f, "raise", "%s[%s]" % (fam, msg), n, False, m))
+            # result of Pop()/Peek() used without a None test
+            if isinstance(n, ast.Assign) and isinstance(n.value, ast.Call) and isinstance(n.value.func, ast.Attribute) and n.value.func.attr in ("Pop", "Peek") \
+                    and len(n.targets) == 1 and isinstance(n.targets[0], ast.Name):
+                var = n.targets[0].id
+                # uses until the next assignment of var in the same block
+                blk = getattr(n, "_parent", None)
+                sibs = None
+                for fld in ("body", "orelse"):
+                    lst = getattr(blk, fld, None)
+                    if isinstance(lst, list) and n in lst:
+                        sibs = lst[lst.index(n) + 1:]
+                in_nonempty_loop = any(isinstance(l, ast.While) and ("len(%s)" % norm(n.value.func.value)) in norm(l.test) for l in _loops(n)) and n.value.func.attr == "Peek"
+                for s in sibs or []:
+                    stop = False
+                    for u in ast.walk(s):
+                        if isinstance(u, ast.Attribute) and isinstance(u.value, ast.Name) and u.value.id == var and isinstance(u.ctx, ast.Load):
+                            safe = in_nonempty_loop or _none_guarded(u, var)
+                            sites.append((q, f, "none-deref", "%s.%s after %s()" % (var, u.attr, n.value.func.attr), u, safe, m))
+                            stop = True
+                            break
+                    if stop or any(isinstance(t, ast.Name) and t.id == var for x in ast.walk(s) if isinstance(x, ast.Assign) for t in x.targets):
+                        break
+            if isinstance(n, ast.Call):
+                fn = norm(n.func)
+                if fn == "struct.unpack" and len(n.args) == 2:
+                    fmt = prog.try_const(m, n.args[0])
+                    key = "len(%s)" % norm(n.args[1])
+                    fa = facts_at(n)
+                    safe = False
+                    if isinstance(fmt, str):
+                        size = _struct.calcsize(fmt)
+                        reach = [k for k in range(0, 10) if ev.may_hold(fa, {key: k})]
+                        safe = reach == [size]
+                    sites.append((q, f, "struct.error", "struct.unpack(%r, %s)" % (fmt, norm(n.args[1])), n, safe, m))
+                if isinstance(n.func, ast.Attribute) and n.func.attr == "decode" and n.args and isinstance(n.args[0], ast.Constant) and isinstance(n.args[0].value, str):
+                    codec = n.args[0].value.lower().replace("-", "_")
+                    if codec in ("latin_1", "latin1", "iso8859_1"):
+                        continue
+                    # inside a try that catches UnicodeDecodeError without re-raising?
+                    safe = False
+                    p = getattr(n, "_parent", None)
+                    while p is not None and p is not f:
+                        if isinstance(p, ast.Try) and any(h.type is not None and "UnicodeDecodeError" in norm(h.type) or h.type is None for h in p.handlers) and enclosing_stmt(n) in p.body:
+                            safe = True
+                        p = getattr(p, "_parent", None)
+                    sites.append((q, f, "UnicodeDecodeError", "bytes.decode(%r)" % n.args[0].value, n, safe, m))
+            if isinstance(n, ast.Subscript) and isinstance(n.ctx, ast.Load) and norm(n.value).endswith("_app_tag_class") and "tagNumber" in norm(n.slice):
+                fa = facts_at(n)
+                key = norm(n.slice)
+                reach = [k for k in (0, 12, 15, 16, 254) if ev.may_hold(fa, {key: k})]
+                sites.append((q, f, "IndexError", "%s[%s]" % (norm(n.value), key), n, max(reach) < 16, m))
+    return sites
+
+
+def _loops(n):
+    p = getattr(n, "_parent", None)
+    while p is not None and not isinstance(p, (ast.FunctionDef,)):
+        if isinstance(p, (ast.For, ast.While)):
+            yield p
+        p = getattr(p, "_parent", None)
+
+
+@rule("C10.R1", "nothing the request decoder can raise escapes the dispatcher: every non-Reject/Abort exception site on the decode path is guarded locally or converted into a Reject by the dispatcher's catch-all",
+      floor=10, engines="E2 raise-site enumeration (explicit + implicit raisers) + handler coverage")
+def r1(ctx):
+    prog = ctx.prog
+    c = prog.cls("appservice", "ApplicationServiceAccessPoint")
+    f = c.methods.get("indication")
+    if f is None:
+        raise AnchorMissing("ApplicationServiceAccessPoint.indication")
+    apdu = f.args.args[1].arg
+    ev = Evaluator(prog, c.module, c)
+    # the try around the request decode in the confirmed branch
+    dec_calls = [x for x in calls_in(f) if isinstance(x.func, ast.Attribute) and x.func.attr == "decode" and x.args and norm(x.args[0]) == apdu
+                 and ev.may_hold(facts_at(x), {"isinstance:%s" % apdu: "ConfirmedRequestPDU"}) and not ev.may_hold(facts_at(x), {"isinstance:%s" % apdu: "UnconfirmedRequestPDU"})]
+    if len(dec_calls) != 1:
+        raise ShapeError("confirmed-request decode call not found (%d)" % len(dec_calls))
+    call = dec_calls[0]
+    t = None
+    p = getattr(call, "_parent", None)
+    while p is not None and p is not f:
+        if isinstance(p, ast.Try) and enclosing_stmt(call) in p.body:
+            t = p
+            break
+        p = getattr(p, "_parent", None)
+    fams = [fam for h in (t.handlers if t else []) for fam in handler_families(prog, c.module, h)]
+    ctx.check("ASAP.indication:decode-in-try", t is not None and "reject" in fams and "abort" in fams, where(c.module, call), "the request decode must run inside a try that catches Reject and Abort exceptions")
+    catch_all = None
+    for h in (t.handlers if t else []):
+        if h.type is None or norm(h.type) in ("Exception", "BaseException"):
+            # converts into a reject/abort stored for the reply, does not re-raise or return
+            conv = [s for s in h.body if isinstance(s, ast.Assign) and isinstance(s.value, ast.Call) and exc_family(prog, c.module, s.value.func) in ("reject", "abort")]
+            leaves = any(isinstance(x, (ast.Return, ast.Raise)) for x in ast.walk(h))
+            if conv and not leaves:
+                catch_all = h
+    # the constructor of the request class is inside the same try (an unknown table shape fails there)
+    mk = [x for x in calls_in(t) if norm(x.func) == "atype"] if t else []
+    ctx.check("ASAP.indication:construct-in-try", len(mk) == 1, where(c.module, t or f), "the request object must be created inside the protected block")
+    sites = escape_sites(prog)
+    ctx.count("decode_path_functions", len(_decode_path_functions(prog)))
+    ctx.count("escape_sites", len(sites))
+    seen = {}
+    for q, fn, kind, key, node, safe, m in sites:
+        k = "%s:%s:%s" % (q, kind, key)
+        seen[k] = seen.get(k, 0) + 1
+        if seen[k] > 1:
+            k = "%s#%d" % (k, seen[k])
+        ctx.check(k, safe or catch_all is not None, where(m, node),
+                  "%s can leave the request decoder (%s) and neither a local guard nor a catch-all in the dispatcher turns it into a reply: the server transaction stays in AWAIT_RESPONSE and the client gets silence"
+                  % (kind, key), facts={"locally_guarded": safe, "dispatcher_catch_all": catch_all is not None})
+    if len(sites) < 8:
+        raise ShapeError("only %d escape sites enumerated on the decode path" % len(sites))
+
+
+@rule("C10.R7", "server-side failures reach the client and never leave a transaction without a timer", floor=10, engines="E1 (shared with C04.R2 / C04.R5)")
+def r7(ctx):
+    from . import c04
+    c04.r2(ctx)
+    c04._retry_rule(ctx, "ServerSSM", "segmented_response_timeout", "segmentRetryCount", None)
+    # a server transaction waiting for the application has a timeout that aborts it
+    c = ctx.prog.cls("appservice", "ServerSSM")
+    f = c.methods.get("await_response_timeout")
+    if f is None:
+        raise AnchorMissing("ServerSSM.await_response_timeout")
+    names = [self_call(x) for x in calls_in(f)]
+    ctx.check("ServerSSM.await_response_timeout:aborts", names.count("abort") == 1, where(c.module, f), "an application that never answers must end the transaction")
